@@ -4,7 +4,7 @@ from props.common import *  # noqa: F401,F403
 
 B = "ghedesigner.borehole_heat_exchangers"
 FUNCTIONS = [f"{S}:Bisection1D.retrieve_flow", f"{S}:RowWiseModifiedBisectionSearch.retrieve_flow", f"{S}:Bisection1D.initialize_ghe",
-             f"{S}:RowWiseModifiedBisectionSearch.initialize_ghe", f"{G}:BaseGHE.__init__#body", f"{B}:get_bhe_object",
+             f"{S}:RowWiseModifiedBisectionSearch.initialize_ghe#body", f"{G}:BaseGHE.__init__#body", f"{B}:get_bhe_object",
              f"{B}:GHEDesignerBoreholeBase.__init__", f"{D}:DesignBase.__init__#body", f"{D}:DesignRowWise.__init__#body"] + flow.SET_DESIGN
 NATIVE_FUNCTIONS = [f"{S}:Bisection1D.retrieve_flow", f"{S}:Bisection1D.initialize_ghe"]
 NATIVE_CASES = {"quick": 12, "thorough": 400}
